@@ -204,33 +204,68 @@ func c15(e *Env) {
 	e.c15Missing()
 	// ---- R5 order determinism
 	ob5 := r.Ob("R5", "default-path:order", "the default output name is built from sorted keys only (no direct map range reaches it)")
-	if idp := p.DeclaredMethod("scipipe", "Process", "initDefaultPathFuncs"); idp != nil && len(idp.AnonFuncs) > 0 {
-		sy := e.symbolizer()
-		for _, an := range idp.AnonFuncs {
-			for _, b := range an.Blocks {
-				for _, in := range b.Instrs {
-					if rt, ok := in.(*ssa.Return); ok {
-						s := sy.InFunc(an, rt.Results[0])
-						bad := ""
-						s.Walk(func(z *core.Sym) bool {
-							// a map range inside the path function itself (the captured port name of the enclosing
-							// per-port loop is one fixed key per closure, not an order-dependent accumulation)
-							if (z.Op == "rangekey" || z.Op == "rangeval") && z.Fn == an {
-								bad = z.String()
-							}
-							return bad == ""
-						})
-						fl := ""
-						if isCallSym(s, "strings.Join") {
-							fl = "Join(pieces, " + s.Args[1].String() + ")"
+	// the default path functions: the function values stored into Process.PathFuncs while a process is built
+	// (NewProc's call tree), whether they are literals, named functions or come out of a factory
+	var defFns []*ssa.Function
+	if np := p.Func("NewProc"); np != nil {
+		if gn := e.XG(np); gn != nil {
+			for _, n := range gn.Nodes {
+				mu, ok := n.Instr.(*ssa.MapUpdate)
+				if !ok {
+					continue
+				}
+				if f := fieldOfLoad(mu.Map); f == nil || f.Name() != "PathFuncs" {
+					continue
+				}
+				var fn *ssa.Function
+				switch v := mu.Value.(type) {
+				case *ssa.MakeClosure:
+					fn, _ = v.Fn.(*ssa.Function)
+				case *ssa.Function:
+					fn = v
+				case *ssa.Call:
+					fn, _ = core.FactoryClosure(v)
+				}
+				if fn != nil {
+					dup := false
+					for _, x := range defFns {
+						if x == fn {
+							dup = true
 						}
-						ob5.Check(bad == "", e.where(rt), fl+" over sorted keys", "the default output path contains "+bad+", taken from a direct map range: the file name depends on Go's random map order")
+					}
+					if !dup {
+						defFns = append(defFns, fn)
 					}
 				}
 			}
 		}
-	} else {
-		ob5.Unknown("-", "default path function not found")
+	}
+	for _, fn := range defFns {
+		gd := e.XG(fn)
+		if gd == nil {
+			continue
+		}
+		nr := 0
+		for _, n := range gd.Nodes {
+			rg, ok := n.Instr.(*ssa.Range)
+			if !ok {
+				continue
+			}
+			if _, isMap := rg.X.Type().Underlying().(*types.Map); !isMap {
+				continue
+			}
+			nr++
+			// a map may be ranged only inside a helper that hands back its result sorted
+			hf := n.Ctx.Fn
+			okSorted := n.Ctx != gd.Root && returnsSlice(hf) && sortsResult(hf)
+			ob5.Check(okSorted, gd.Where(n), "map ranged inside "+core.FuncName(hf)+", which sorts what it returns", "the default output path is assembled from a direct range over the map "+e.symbolizer().InCtx(n.Ctx, rg.X).String()+": the file name depends on Go's random map iteration order")
+		}
+		if nr == 0 {
+			ob5.OK(core.FuncName(fn), "no map range in the default path function's call tree")
+		}
+	}
+	if len(defFns) == 0 {
+		ob5.Unknown("-", "default path function not found (no function value is stored into Process.PathFuncs in NewProc's call tree)")
 	}
 	ob5b := r.Ob("R5", "formatter:order", "the command is assembled in the order of the placeholder matches (no map range feeds the command text)")
 	nRange := 0
